@@ -705,8 +705,9 @@ func (a *agg) racePass(bin string, depth, docs, reps, n int, deadline time.Time)
 				}
 				// a death in the free run (e.g. "concurrent map writes"): attribute and go on
 				key, site, _ := deathKey(r.stderr, r.ann.Last, r.killed)
-				rp, _ := json.Marshal(map[string]any{"kind": "race", "history": r.ann.History})
-				c.Violate("race-pass:"+key, fmt.Sprintf("free-running pass: the server process died on history [%s] (%s) %s\n%s", strings.Join(r.ann.Hist, " "), r.how, site, panicExcerpt(r.stderr)), json.RawMessage(rp))
+				rp, _ := json.Marshal(map[string]any{"key": key, "kind": "race", "history": r.ann.History})
+				// same key scheme as the controlled pass: a panic is the same defect in either pass
+				c.Violate(key, fmt.Sprintf("free-running pass: the server process died on history [%s] (%s) %s\n%s", strings.Join(r.ann.Hist, " "), r.how, site, panicExcerpt(r.stderr)), json.RawMessage(rp))
 				start = r.idx + 1
 			}
 		}(s)
